@@ -344,3 +344,66 @@ func (r *IterResult) Failed() error {
 	}
 	return nil
 }
+
+// InterleavedRead opens ONE Reader and consumes two iterators obtained from it alternately (a from
+// optsA one message at a time, b from optsB three at a time), calling Info-driven random access in
+// between. Iterators of one Reader share its ReadSeeker; each must still see exactly its own result.
+func InterleavedRead(r io.ReadSeeker, optsA, optsB []mcap.ReadOpt, randomAccess bool) (a, b *IterResult) {
+	a, b = &IterResult{}, &IterResult{}
+	p := core.Safe(func() {
+		reader, err := mcap.NewReader(r)
+		if err != nil {
+			a.OpenErr, b.OpenErr = err, err
+			return
+		}
+		defer reader.Close()
+		ita, err := reader.Messages(optsA...)
+		if err != nil {
+			a.OpenErr = err
+		}
+		itb, err := reader.Messages(optsB...)
+		if err != nil {
+			b.OpenErr = err
+		}
+		var info *mcap.Info
+		if randomAccess {
+			info, _ = reader.Info()
+		}
+		step := func(it mcap.MessageIterator, res *IterResult) bool {
+			s, c, m, err := it.NextInto(nil)
+			if err != nil {
+				if err != io.EOF { //nolint:errorlint
+					res.Err = err
+				}
+				return false
+			}
+			res.Triples = append(res.Triples, Triple{S: CanonSchema(s), C: CanonChannel(c), M: CanonMessage(m), Seq: m.Sequence, LogTime: m.LogTime, ChanID: m.ChannelID})
+			return true
+		}
+		liveA, liveB := a.OpenErr == nil, b.OpenErr == nil
+		n := 0
+		for liveA || liveB {
+			if liveA {
+				liveA = step(ita, a)
+			}
+			for k := 0; k < 3 && liveB; k++ {
+				liveB = step(itb, b)
+			}
+			n++
+			if info != nil && n%2 == 0 {
+				if len(info.MetadataIndexes) > 0 {
+					_, _ = reader.GetMetadata(info.MetadataIndexes[n%len(info.MetadataIndexes)].Offset)
+				}
+				if len(info.AttachmentIndexes) > 0 {
+					if ar, err := reader.GetAttachmentReader(info.AttachmentIndexes[n%len(info.AttachmentIndexes)].Offset); err == nil {
+						_, _ = io.Copy(io.Discard, ar.Data())
+					}
+				}
+			}
+		}
+	})
+	if p != nil {
+		a.Panic, b.Panic = p, p
+	}
+	return a, b
+}
